@@ -55,6 +55,15 @@ pub fn run(c: &Case, rep: &mut Report) {
                     }
                 }
             }
+            'r' | 'R' => {
+                let k = if s == 'R' { m.vals.len().wrapping_sub(1) } else { m.dead.iter().position(|d| !*d).unwrap_or(usize::MAX) };
+                if k >= m.vals.len() || m.dead[k] {
+                    want.push_str("rename -> skip");
+                } else {
+                    let has_name = !matches!(coll, "exports" | "imports" | "locals" | "customs");
+                    want.push_str(&format!("rename id#{} {}", k, if has_name { "done" } else { "n/a" }));
+                }
+            }
             _ => {
                 let k = if s == 'L' { m.vals.len().wrapping_sub(1) } else { (s as u8 - b'0') as usize };
                 if k >= m.vals.len() || m.dead[k] || m.no_delete {
@@ -75,6 +84,11 @@ pub fn run(c: &Case, rep: &mut Report) {
         }
         let live: Vec<String> = (0..m.vals.len()).filter(|k| !m.dead[*k]).map(|k| m.show(coll, m.vals[k])).collect();
         want.push_str(&format!(" | iter: [{}]", live.join(",")));
+        if matches!(coll, "tables" | "memories" | "elements" | "exports" | "imports" | "funcs" | "customs") {
+            want.push_str(&format!(" | iter_mut: [{}]", live.join(",")));
+        } else {
+            want.push_str(" | iter_mut: n/a");
+        }
         want.push_str(" | find:");
         if m.has_find {
             for v in 0..4u32 {
@@ -111,6 +125,8 @@ pub fn run(c: &Case, rep: &mut Report) {
                 kind
             } else if part(got, 2) != part(&want, 2) {
                 "iteration-differs"
+            } else if part(got, 3) != part(&want, 3) {
+                "mutable-iteration-differs"
             } else {
                 "find-differs"
             };
